@@ -193,3 +193,18 @@ func ToJSON(v any) string {
 	b, _ := json.Marshal(v)
 	return string(b)
 }
+
+// Sub returns a context with a private result (used to try a candidate
+// explanation without committing its violations to the run).
+func (c *Ctx) Sub() *Ctx {
+	return &Ctx{Prop: c.Prop, Engine: c.Engine, Tier: c.Tier, Seed: c.Seed, Case: c.Case, R: c.R, Scratch: c.Scratch, res: NewResult(), Backend: c.Backend}
+}
+
+func (c *Ctx) FirstViolation() string {
+	c.mu.Lock()
+	defer c.mu.Unlock()
+	if len(c.res.Violations) == 0 {
+		return ""
+	}
+	return c.res.Violations[0].What
+}
